@@ -390,7 +390,7 @@ def check(prop, tier, seed):
                 fail_rows.append((j, s['site'], f))
     ev['exhaustive_sites'] = sorted(set(ev['exhaustive_sites']))
     ev['sites'] = len(set((k[0], k[1]) for k in site_rows))
-    high_discard = sorted('%s:%s' % (k[0], k[1]) for k, r in site_rows.items() if r['cases'] >= 50 and r['discard'] > 0.6 * r['cases'])
+    high_discard = sorted('%s:%s' % (k[0], k[1]) for k, r in site_rows.items() if k[2] == 'rc' and r['cases'] >= 50 and r['discard'] > 0.6 * r['cases'])
     for er in extra_results:
         ev['evaluations'] += er.get('evaluations', 0)
         ev['distinct_nontrivial'] += er.get('distinct_nontrivial', 0)
